@@ -5,6 +5,11 @@ ROOT = os.path.join(os.path.dirname(os.path.abspath(__file__)), "..")
 props = [json.loads(l) for l in open(os.path.join(ROOT, "properties.jsonl")) if l.strip()]
 
 CLAIMS = {
+    "C12": dict(
+        text="Lean 4 theorems: admin_roundtrip — every administrative record in normal form (status report with any number of items, any reason code, any canonical source EID, timestamp, optional fragment fields; unknown record with opaque content) decodes from its encoding to an equal record, through the visitor-level decoder model with its size-hint tests; report_eq_spec / admin_eq_spec — the encoding is the RFC 9171 §6.1 layout as an independent item tree; status_bundle_spec — for every non-fragment bundle B with non-null report-to, every status position, reason code, CRC type and clock value, the generated report bundle is an administrative-record bundle to B's report-to endpoint, from the reporting node, with B's lifetime, whose payload decodes to a status report referencing B's source and creation timestamp, asserting exactly the requested item, carrying the status time iff B requested status times, the requested reason code, and whose bundle reference equals B's ID. Tie to the code: records incl. non-normal ones, 0..6 items, boundary reason codes through serde_cbor to_vec/from_slice of the real crate vs the model; new_status_report_bundle under the mock clock vs the model, with a harness-side oracle for the listed properties of the report bundle.",
+        note="Validity of the report bundle (Bundle::validate succeeds) is checked by the correspondence oracle, not stated as a theorem. The sequence number of the report bundle comes from the process-wide generator (C09) and is normalised in the comparison. Trusted: Lean kernel; axioms propext, Classical.choice, Quot.sound.",
+        technique="Lean 4 proof (round-trip lemmas for the record visitors, refinement to an RFC item tree, case analysis of report construction) + differential correspondence check",
+        design="§6 C12"),
     "C19": dict(
         text="Lean 4 theorems, one per fault class, about the visitor-level decoder model applied to a conformant bundle's encoding with one injected fault (unbounded in every field, block count and surrounding bytes): any byte after the end (reject_trailing_bytes), missing break (reject_missing_break), primary block: CRC field absent against the CRC type, CRC field of the wrong length, an extra trailing item / CRC field against CRC type 0 (reject_primary_*), a negative integer / float / null / text / byte string / array / map / boolean in place of the version (reject_primary_version_kind, 11 item kinds), destination EID with unknown scheme code / ipn node 0 / extra item / missing scheme (reject_primary_dst_eid); canonical block: CRC field absent, CRC field of the wrong length (reject_canon_*), bad block-type-specific data for bundle age / hop count / previous node (reject_bad_btsd, enumerated items); and `accepted` shows the un-faulted encoding decodes, so the rejections are due to the fault. Tie to the code: for every generated conformant bundle (bytes from the independent reference encoder) every fault of all 16 classes of the property is injected at item level at every applicable position by an independent item scanner; the real decoder must answer with an error and agree with the model.",
         note="Fault classes of the property NOT yet covered by a theorem (correspondence only): missing mandatory item at arbitrary positions, creation-timestamp and ipn-pair arity, wrong-kind items at positions other than the version, array-kind and bstr-kind substitutions, faults in source/report-to EIDs and in EIDs inside previous-node blocks, canonical-block extra item. Trusted: Lean kernel; axioms propext, Classical.choice, Quot.sound.",
